@@ -1543,7 +1543,9 @@ func (f *frame) callResType(name string, ord, ridx int) types.Type {
 				n = fn.Name()
 			}
 			if n != name {
-				continue
+				if fn := c.Call.StaticCallee(); fn == nil || fn.Signature.Recv() == nil || !strings.HasSuffix(name, "_"+n) {
+					continue
+				}
 			}
 			_ = k
 			if tup, ok := c.Type().(*types.Tuple); ok {
@@ -1576,7 +1578,13 @@ func selectPatterns(body, qv string) []string {
 		if !ok {
 			continue
 		}
-		if args[1] != qv || strings.Contains(args[0], "?") || strings.Contains(args[0], "(ite ") || strings.Contains(args[0], "(and ") || strings.Contains(args[0], "(not ") {
+		idxOK := args[1] == qv
+		if !idxOK && strings.HasPrefix(args[1], "(+ ") && strings.HasSuffix(args[1], " "+qv+")") {
+			// slice element read: index is (+ offset qv) with an offset free of bound variables
+			off := args[1][3 : len(args[1])-len(qv)-2]
+			idxOK = !strings.Contains(off, "?") && !strings.Contains(off, "(ite ")
+		}
+		if !idxOK || strings.Contains(args[0], "?") || strings.Contains(args[0], "(ite ") || strings.Contains(args[0], "(and ") || strings.Contains(args[0], "(not ") {
 			continue // not a legal / useful E-matching pattern
 		}
 		t := body[start : end+1]
@@ -1666,13 +1674,22 @@ func (f *frame) findCall(name string) *ssa.Call {
 			if !ok {
 				continue
 			}
-			n := ""
+			n, n2 := "", ""
 			if c.Call.IsInvoke() {
 				n = c.Call.Method.Name()
 			} else if fn := c.Call.StaticCallee(); fn != nil {
 				n = fn.Name()
+				if fn.Signature.Recv() != nil {
+					rt := fn.Signature.Recv().Type()
+					if p, ok := rt.(*types.Pointer); ok {
+						rt = p.Elem()
+					}
+					if nt, ok := rt.(*types.Named); ok {
+						n2 = nt.Obj().Name() + "_" + n
+					}
+				}
 			}
-			if n == name {
+			if n == name || n2 == name {
 				return c
 			}
 		}
